@@ -5,7 +5,8 @@ Driver for C13: one op per modelled function.  Strings in, JSON (compact) or an 
   ast      {"ast": formula AST}  -> JSON [render, latex, unicode, html, unLatex(latex), unUnicode(unicode), unHtml(html), render(canon ast),
                                           present latex, present unicode, present html]
   substance {"s": str}           -> JSON [latex_name, unicode_name, html_name] | exception name
-  species  {"s": str, "phases": [str] | [[str, int]], "default": int | null}
+  charge   {"s": str}            -> `_get_charge(s)`: the integer | exception name
+  species  {"s": str, "phases": [str] | [[str, int]], "default": int | null, "phase_idx": int?}
                                  -> JSON [latex_name, unicode_name, html_name, phase_idx] | exception name
   reaction {"printer": "str"|"latex"|"unicode"|"html", "eq": bool, "substances": [str], "reac": [[key, n | [num, den]]], "prod": [...], "inact_reac": [...]?, "inact_prod": [...]?}
                                  -> JSON string
@@ -98,10 +99,21 @@ def h : Handler := fun op j =>
       | .ok .null => pure none
       | .ok v => do pure (some (← asInt v))
       | .error _ => .error "!bad-arg:default"
-    match speciesFromFormula phases dflt (← getStr j "s").toList with
+    let explicit ← match j.getObjVal? "phase_idx" with
+      | .ok .null => pure none
+      | .ok v => do pure (some (← asInt v))
+      | .error _ => pure none
+    let txt := (← getStr j "s").toList
+    match (match explicit with
+           | some i => speciesFromFormulaIdx phases i txt
+           | none => speciesFromFormula phases dflt txt) with
     | .ok s => pure (Json.arr #[jstr s.latexName, jstr s.unicodeName, jstr s.htmlName,
         match s.phaseIdx with | some i => Json.num (Lean.JsonNumber.fromInt i) | none => Json.null]).compress
     | .error e => pure e
+  | "charge" => do
+    match getCharge (← getStr j "s").toList with
+    | .ok q => pure (toString q)
+    | .error e => pure e.pyName
   | "reaction" => do
     let p ← getPrinter j
     let eq ← getBool j "eq"
